@@ -123,7 +123,8 @@ def body(case, stats):
             # flat / plateau curve: the cutoff would stop the run at once; end by capacity
             # of a small cell instead (about `steps` of the ~1000 steps are too many: use a
             # steep last segment)
-            volt = [(0.0, 0.5 * volt[-1][1]), (soc_cut, volt[-1][1]), (1.0, volt[-1][1])]
+            volt = [(0.0, 0.5 * volt[-1][1]), (max(soc_cut - 0.002, 0.0), 0.5 * volt[-1][1]),
+                    (soc_cut, volt[-1][1]), (1.0, volt[-1][1])]
             cutoff = 0.75 * volt[-1][1]
     expect_calls = (m["cycles"] * len(phases)) if phases else 1000
     model = {"c0": c0, "volt": volt, "res": m["res"], "max_calls": int(20 * expect_calls) + 50}
@@ -149,6 +150,7 @@ def body(case, stats):
         raise Fail("probe_repeated", "probe callback called {} times".format(
             sum(1 for c in calls if c[0] == "probe")))
     state = calls[0][1]
+    memo = {}  # reference currents by (battery voltage, resistance, phase)
     exp_log = [(0.0,) + tuple(state)]
     k = 0
     dep = calls[1:]
@@ -161,10 +163,13 @@ def body(case, stats):
                        "{!r}) but no further call was made".format(k, state[0], state[1], cutoff))
         _d, t_got, i_got, ret = dep[k]
         ph = phases[k % len(phases)] if phases else ""
-        try:
-            i_exp = battery_current(spec, batt, state[1], state[2], ph)
-        except (ValueError, RuntimeError):
-            raise Skip("reference_not_solved")
+        key = (float(state[1]), float(state[2]), ph)
+        if key not in memo:
+            try:
+                memo[key] = battery_current(spec, batt, state[1], state[2], ph)
+            except (ValueError, RuntimeError):
+                raise Skip("reference_not_solved")
+        i_exp = memo[key]
         if abs(i_got - i_exp) > 3e-5 * abs(i_exp) + 1e-9:
             raise Fail("current",
                        "deplete call {} (phase {!r}, battery {!r} V / {!r} Ohm): current "
@@ -270,7 +275,7 @@ def _models():
     return st.fixed_dictionaries({
         "volt": volt, "res": res.map(lambda l: [(s_, r) for s_, r in _dedup(l)]),
         "cycles": st.floats(2.0, 30.0), "cut": st.floats(0.5, 1.02),
-        "steps": st.integers(5, 60), "c0_abs": G.logf(0.01, 10.0),
+        "steps": st.integers(5, 60), "c0_abs": G.logf(0.01, 2000.0),
     })
 
 
